@@ -1176,8 +1176,9 @@ class CodeBuilder:
     ) -> typing.Tuple[str, typing.Optional[str], bool]:
         metadata = self.metadatas.get(fname, {})
         alias = self.__get_field_alias(fname, ftype, metadata, config)
+        bare_type = get_type_origin(ftype) if is_annotated(ftype) else ftype
         could_be_none = (
-            ftype in (typing.Any, type(None), None)
+            bare_type in (typing.Any, type(None), None)
             or is_type_var_any(self.get_real_type(fname, ftype))
             or is_optional(ftype, self.get_field_resolved_type_params(fname))
             or is_union_with_none(ftype)
